@@ -237,6 +237,9 @@ func init() {
 			ex.clock = ex.tc.Bin(OAdd, ex.clock, d)
 			return ex.clock
 		},
+		z + "Thorough": func(ex *Exec, fn *ssa.Function, args []Value, site token.Pos) Value {
+			return ex.tc.Bool(ex.job != nil && ex.job.Cfg.Tier == "thorough")
+		},
 		z + "Native": func(ex *Exec, fn *ssa.Function, args []Value, site token.Pos) Value { return ex.tc.False },
 
 		// ---- math ----
@@ -636,7 +639,7 @@ func (ex *Exec) toNative(v Value) (interface{}, bool) {
 		}
 		// error / Stringer: call the method in target space
 		for _, mname := range []string{"Error", "String"} {
-			if m := ex.P.prog.LookupMethod(x.t, nil, mname); m != nil && m.Signature.Params().Len() == 0 && m.Signature.Results().Len() == 1 {
+			if m := ex.findMethod(x.t, mname); m != nil && m.Signature.Params().Len() == 0 && m.Signature.Results().Len() == 1 {
 				if b, ok := m.Signature.Results().At(0).Type().Underlying().(*types.Basic); ok && b.Kind() == types.String {
 					r := ex.callFunction(m, []Value{x.v}, nil, token.NoPos)
 					if s, ok := r.(*StrV); ok && s.Concrete() {
@@ -728,4 +731,15 @@ func (ex *Exec) toNativeTyped(v Value, t types.Type) (interface{}, bool) {
 		return nil, true
 	}
 	return fmt.Sprintf("<%T>", v), true
+}
+
+func (ex *Exec) findMethod(t types.Type, name string) *ssa.Function {
+	if t == rtErrType {
+		return nil
+	}
+	sel := ex.P.prog.MethodSets.MethodSet(t).Lookup(nil, name)
+	if sel == nil {
+		return nil
+	}
+	return ex.P.prog.MethodValue(sel)
 }
